@@ -101,10 +101,11 @@ def handle (st : St) (line : String) : St × Option String :=
     match parseNode toks with
     | some (n, _) => ({ st with types := st.types.insert tid n }, none)
     | none => (st, some "skip bad-type")
-  | ("V" :: vid :: _tid :: toks) :: _ =>
-    match parseVal toks with
-    | some (v, _) => ({ st with vals := st.vals.insert vid v }, none)
-    | none => (st, none)       -- values the model cannot name (inexact floats): ops on them are skipped
+  | ("V" :: vid :: tid :: toks) :: _ =>
+    match parseVal toks, st.types[tid]? with
+    | some (v, _), some n => ({ st with vals := st.vals.insert vid (coerce n v) }, none)
+    | some (v, _), none => ({ st with vals := st.vals.insert vid v }, none)
+    | none, _ => (st, none)       -- values the model cannot name (inexact floats): ops on them are skipped
   | ["CFG", k, v] :: _ =>
     if k == "fallThroughAlways" then ({ st with cfg := { st.cfg with fallThroughAlways := v == "1" } }, none)
     else (st, none)
